@@ -16,9 +16,16 @@ on `Evm.transact` / `Evm.preverify` / `Evm.finalGas` / `Evm.runLoop` themselves.
 Translations (`Proofs/EvmLink*.lean`): `tvCfg / tvBlock / tvTx / senderOf` (the environment and the loaded sender as C02
 reads them), `gasEnv / frameRes / toIR` (the environment and the first frame's result as C09 reads them).
 
+Sections: 1 validation (C02) · 2 gas and fees (C09) · 3 frame depth (C07) · 4 the `Host` as a journal history, cold /
+warm (C34) · 5 static mode (C10).
+
 What is hypothesised and not proved here: `loadSender … = .ok …` (the journal can load the sender: no `unwrap` panic in
-the journal model, the code store knows the sender's code hash); the frame machine's guarantee `res.gasRemaining ≤
-gas_limit − initial_gas` for the first frame's result (the visible hypothesis of C09 / C01 `transact_gas_bounds`). -/
+the journal model, the code store knows the sender's code hash); `FrameAccounting`, the frame machine's guarantee
+`res.gasRemaining ≤ gas_limit − initial_gas` for the first frame's result (the visible hypothesis of C09 and of C01
+`transact_gas_bounds`; C25's `StepOk` would give it per frame, but lifting it through `Evm.runLoop` needs the memory
+handed back by a child to re-establish the parent's `Inv`, a bound on the output of a halting frame and a bound on the
+code store, none of which C25 exports); for C34 the history `lockRun … = some l` leading to the world's journal, and for
+the static frame theorem the two items listed at `FullStatement_static_frame_state_equal`. -/
 namespace Revm.Props.C01Link
 open Revm Revm.Model Revm.Model.Evm
 open Revm.Proofs.EvmLink
@@ -106,6 +113,39 @@ def FullStatement_transact_rejected_iff_invalid : Prop :=
     ((∃ w', Evm.transact fuel w e f.id = .ok (.rejected, w')) ↔
       ¬ ValidTx f (tvCfg e) (tvBlock e) (tvTx e) (senderOf code acc.info))
 
+/-- the Berlin witness of C02 (`priority_fee_before_london_counterexample`) as a whole-EVM transaction: sender `0xaa`
+with 10^18 wei and nonce 3, a plain transfer carrying `gas_priority_fee = Some(0)` -/
+def ceWorld : World :=
+  { js := Journal.JState.new 11 (fun _ => false),
+    pre := [{ addr := 0xaa, balance := 10^18, nonce := 3, code := [], codeHash := KECCAK_EMPTY, storage := [] }] }
+def ceEnv : Evm.Env :=
+  { block := { gasLimit := 30000000, basefee := 7, prevrandao := some 0, blobGasPrice := some 1 },
+    tx := { caller := 0xaa, gasLimit := 21000, gasPrice := 10, to := some 0xbb, value := 5, nonce := some 3,
+            chainId := some 1, priorityFee := some 0 } }
+
+/-- the full statement is FALSE of the whole-EVM model too (as it is of the code, C02): `Evm.transact` EXECUTES the
+Berlin transaction with a priority fee, which `Spec.TxValid.ValidTx` rejects (EIP-1559 transactions do not exist before
+London) — the departure region `TypeGap` of C02, reproduced by the whole-transaction model -/
+theorem transact_rejected_iff_invalid_full_counterexample : ¬ FullStatement_transact_rejected_iff_invalid := by
+  intro hall
+  obtain ⟨w1, acc, code, hl, hs⟩ :=
+    loadedSenderIs_spec (w := ceWorld) (a := ceEnv.tx.caller) (snd := Props.C02.sndPlain) (by decide +kernel)
+  have htx : tvTx ceEnv = { Props.C02.txPlain with priorityFee := some 0 } := rfl
+  have hblk : tvBlock ceEnv = Props.C02.blkPlain := rfl
+  have hcfg : tvCfg ceEnv = {} := rfl
+  have hr : InRange (tvBlock ceEnv) (tvTx ceEnv) (senderOf code acc.info) := by
+    rw [hs, htx, hblk]
+    exact Props.C02.inRange_plain _ _ (by rw [W_val, U64_val]; decide)
+  have hf : GasFits .berlin (tvTx ceEnv) := by
+    rw [htx]; unfold GasFits; rw [U64_val]; decide
+  have hiff := hall .berlin 10 ceWorld w1 ceEnv acc code hl hr hf
+  rw [hs, htx, hblk, hcfg] at hiff
+  obtain ⟨w', hrej⟩ := hiff.2 Props.C02.priority_fee_before_london_counterexample.2
+  obtain ⟨r, w'', hex⟩ : ∃ r w'', Evm.transact 10 ceWorld ceEnv Fork.berlin.id = .ok (.executed r, w'') :=
+    exists_of_isExecuted (by decide +kernel)
+  rw [hex] at hrej
+  cases hrej
+
 /-- COROLLARY (C02 `valid_accepted`, full strength): a valid transaction is never answered `rejected` -/
 theorem transact_valid_not_rejected (f : Fork) (fuel : Nat) (w w1 w' : World) (e : Evm.Env)
     (acc : Journal.Acct) (code : List Nat) (hload : loadSender w e.tx.caller = .ok (w1, acc, code))
@@ -168,6 +208,9 @@ theorem evm_deduct_caller_eq_txgas (e : Evm.Env) (spec : Nat) (w w' : World) (h 
 /-- a completed executed transaction exists (the plain transfer of C01) -/
 example : ∃ r w', Evm.transact 10 sampleWorld sampleEnv 17 = .ok (.executed r, w') :=
   exists_of_isExecuted (by decide +kernel)
+
+/-- the frame machine's guarantee holds of the sample transaction (its hypothesis is satisfiable) -/
+example : FrameAccounting 10 sampleWorld sampleEnv 17 := frameAccounting_of_check (by decide +kernel)
 
 open Revm.Model.Gas Revm.Model.TxGas in
 /-- COROLLARY (C09 `spent_bounds`, `used_le_limit`, `floor_le_used`, `used_eq_max` on `Evm.transact`): for a completed
